@@ -41,7 +41,7 @@ Step == IF last'.k = "Submit"
 Record == hist' = IF last'.k \in {"Submit", "Connect", "Reorg"} THEN Append(hist, Step) ELSE hist
 
 \* ---------------- exhaustive ----------------
-BlockChoices == {B \in SUBSET AtomIds : Cardinality(B) <= MaxBlockTxs}
+BlockChoices == UNION {kSubset(n, AtomIds) : n \in 0..MaxBlockTxs}
 Branches(n) == [1..n -> BlockChoices]
 MCNextBase ==
   \/ \E t \in Subs, stem \in BOOLEAN : Submit(t, stem, TRUE)
@@ -50,7 +50,9 @@ MCNextBase ==
   \/ \E d \in 1..MaxReorgDepth : \E bs \in Branches(d + 1) : Reorg(d, bs)
   \/ ShortReorg /\ \E bs \in Branches(1) : Reorg(2, bs)
 MCInit == Init /\ hist = <<>>
-MCNext == MCNextBase /\ Record
+MCNext == MCNextBase /\ UNCHANGED hist
+MCNextRec == MCNextBase /\ Record
+MCSpecRec == MCInit /\ [][MCNextRec]_mcvars
 MCSpec == MCInit /\ [][MCNext]_mcvars
 View == <<chain, txpool, stempool, cache, last, nsteps>>
 
@@ -68,8 +70,9 @@ RandBlock(ch) ==
   IN IF good = {} THEN {} ELSE RandomElement(good)
 SimSubmit ==
   \E r \in {RandomElement(1..10)} :
-  \E good \in {{t \in Subs : Fluff(t).res # "reject"}} :
-  \E t \in {IF r <= 5 /\ good # {} THEN RandomElement(good) ELSE RandomElement(Subs)} :
+  \E c4 \in {{RandomElement(Subs), RandomElement(Subs), RandomElement(Subs), RandomElement(Subs)}} :
+  \E good \in {{t \in c4 : Fluff(t).res # "reject"}} :
+  \E t \in {IF r <= 6 /\ good # {} THEN RandomElement(good) ELSE RandomElement(c4)} :
   \E st \in {RandomElement(1..10)} :
      /\ Submit(t, st <= 3, st # 1)
      /\ (last'.evict /\ last'.allowed # {}) => last'.victim = Guess(last'.pre, last'.allowed)
@@ -85,15 +88,18 @@ SimReorg ==
   \E short \in {ShortReorg /\ d = 2 /\ RandomElement(1..2) = 1} :
   \E base \in {SubSeq(chain, 1, Len(chain) - d)} :
   \E b1 \in {IF RandomElement(1..2) = 1 THEN {} ELSE RandBlock(base)} :
-  \E b2 \in {IF RandomElement(1..2) = 1 THEN {} ELSE RandBlock(Append(base, b1))} :
-  \E b3 \in {IF RandomElement(1..3) = 1 THEN RandBlock(Append(Append(base, b1), b2)) ELSE {}} :
-     /\ Len(chain) >= d
-     /\ Reorg(d, IF short THEN <<b1>> ELSE IF d = 1 THEN <<b1, b2>> ELSE <<b1, b2, b3>>)
+  \E b2 \in {IF short \/ RandomElement(1..2) = 1 THEN {} ELSE RandBlock(Append(base, b1))} :
+  \E b3 \in {IF ~short /\ d = 2 /\ RandomElement(1..3) = 1 THEN RandBlock(Append(Append(base, b1), b2)) ELSE {}} :
+     Reorg(d, IF short THEN <<b1>> ELSE IF d = 1 THEN <<b1, b2>> ELSE <<b1, b2, b3>>)
 SimNext ==
   \E r \in {RandomElement(1..20)} :
-     IF SimProfile = "blocks"
-     THEN (IF r <= 9 THEN SimSubmit ELSE IF r <= 15 THEN SimConnect ELSE SimReorg)
-     ELSE (IF r <= 14 THEN SimSubmit ELSE IF r <= 18 THEN SimConnect ELSE SimReorg)
+  \E canConnect \in {Len(chain) < MaxBlocks} :
+  \E canReorg \in {Len(chain) >= 1 /\ Len(chain) < MaxBlocks} :
+  \E ps \in {IF SimProfile = "submit" THEN 20 ELSE IF SimProfile = "blocks" THEN 9 ELSE 14} :
+  \E pc \in {IF SimProfile = "blocks" THEN 15 ELSE 18} :
+     IF r <= ps \/ ~canConnect THEN SimSubmit
+     ELSE IF r <= pc \/ ~canReorg THEN SimConnect
+     ELSE SimReorg
 MCSimSpec == MCInit /\ [][SimNext /\ Record]_mcvars
 
 Done == nsteps = MaxSteps
